@@ -194,6 +194,26 @@ def variants_of(c, mon, rnd):
                     nums += [num + '.0', num + '.', num + '.00']
                 for n2 in nums:
                     out.append(s[:st] + n2 + 'K' + s[en:])
+        # the same rewrites found on the text itself, whatever the pattern calls (or no longer calls) its groups
+        mm = re.search(r'(\d+\.?\d*)\s*([Kk][Gg]?)\s*$', s)
+        if mm and mm.start(1) >= 2:
+            st, en, num = mm.start(1), len(s), mm.group(1)
+            for suf in ('k', 'K', 'kg', 'KG', 'Kg'):
+                out.append(s[:st] + num + suf)
+                out.append(s[:st] + ' ' + num + ' ' + suf)
+            if '.' in num:
+                z = num.rstrip('0')
+                alts = [num + '0', num + '00'] + ([z[:-1], z] if z.endswith('.') else [z])
+            else:
+                alts = [num + '.0', num + '.', num + '.00']
+            for n2 in alts:
+                if n2:
+                    out.append(s[:st] + n2 + 'K')
+        mm = re.search(r'(\d+)\s*[gG]?\s*$', s)
+        if mm and mm.start(1) >= 2 and not re.search(r'[Kk][Gg]\s*$', s):
+            st, num = mm.start(1), mm.group(1)
+            for suf in ('', 'g', ' g'):
+                out.append(s[:st] + num + suf)
         for g in ('jtnum', 'otnum'):
             v = gd.get(g)
             if v and v.strip():
